@@ -48,6 +48,21 @@ Theorem C10T_print_parse : forall j fuel,
 Proof. exact print_parse. Qed.
 Print Assumptions C10T_print_parse.
 
+(** White space is irrelevant.  [wjv] is a value decorated with an arbitrary
+    string at every place where JSON allows white space (after an opening
+    bracket or brace, before and after every element, before and after a member
+    name, after the colon, after a member's value; [w1], [w2] around the whole
+    text); [wprint] writes the tokens as [print_json] does with those strings
+    in between, [erase] forgets them.  If every decoration consists of space,
+    tab, LF, CR, the text parses to the undecorated value, i.e. to what the
+    compact text parses to (C10T_print_parse). *)
+Theorem C10T_whitespace_irrelevant : forall x w1 w2 fuel,
+  ws_okb x = true -> all_ws w1 = true -> all_ws w2 = true -> text_ok (erase x) = true ->
+  (length (w1 ++ wprint x ++ w2) + 1 <= fuel)%nat ->
+  parse_json fuel (w1 ++ wprint x ++ w2) = Some (erase x).
+Proof. exact whitespace_irrelevant. Qed.
+Print Assumptions C10T_whitespace_irrelevant.
+
 (** On every text that is valid JSON, the label pattern matched on the bytes
     gives exactly what Codec's token-level pre-check gives on the value plus
     the two token-level facts read off the bytes; hence ParseClientMsg on
@@ -206,6 +221,15 @@ Example C10T_example_structure :
   json_valid $"" = false /\ json_valid $"nul" = false /\ json_valid $"NaN" = false /\
   json_valid ([239; 187; 191] ++ $"[]") = false /\ json_valid ([12] ++ $"[]") = false /\
   json_valid (repeat 91 300 ++ repeat 93 300) = true /\ json_valid (repeat 91 300 ++ repeat 93 299) = false.
+Proof. vm_compute. repeat split. Qed.
+
+(** a decorated value: [ LF "a" TAB , SP { CR "k" SP : SP SP 1 LF } SP ] *)
+Example C10T_example_whitespace :
+  let x := WArr [10] [([], WAtom (JStr $"a"), [9]);
+                      ([32], WObj [13] [([], $"k", [32], [32; 32], WAtom (JNum (NInt false 1)), [10])], [32])] in
+  wprint x = [91; 10] ++ $"""a""" ++ [9] ++ $", {" ++ [13] ++ $"""k"" :  1" ++ [10] ++ $"} ]" /\
+  ws_okb x = true /\ erase x = JArr [JStr $"a"; JObj [($"k", JNum (NInt false 1))]] /\
+  parse_json (fuel_of (wprint x)) (wprint x) = Some (erase x).
 Proof. vm_compute. repeat split. Qed.
 
 (** the hypotheses of the round-trip theorem are satisfiable on a non-trivial value *)
